@@ -412,4 +412,39 @@ theorem reshape_family_is_permutation {α : Type} (a : Arr α) (fill : α) (v : 
     (v.apply a fill).flat.Perm a.flat :=
   List.Perm.of_eq (reshape_family_keeps_order a fill v ha dst ax nd hv)
 
+/-- **swapaxes = NumPy** (axes possibly negative): with `m1, m2` the normalised axes and `σ` the exchange of `m1` and `m2`,
+    `shape[k] = src[σ k]` and element `d` is read from `i` with `i[σ k] = d[k]`; it is a permutation of the source
+    and stays in bounds. -/
+theorem swapaxes_eq_spec {α : Type} (a : Arr α) (fill : α) (a1 a2 : Int) (m1 m2 : Nat)
+    (h1 : normalizeAxis a.shape.length a1 = some m1) (h2 : normalizeAxis a.shape.length a2 = some m2)
+    (ha : Pos a.shape) :
+    ∃ v, swapaxesView a.shape a1 a2 = some v ∧ v.src = a.shape ∧ v.dst.length = a.shape.length ∧
+      (∀ k : Nat, k < a.shape.length → v.dst[k]? = a.shape[swapPos m1 m2 k]?) ∧
+      (∀ d : Idx, d.length = a.shape.length → ∃ i, v.map d = some i ∧ i.length = a.shape.length ∧
+          ∀ k : Nat, k < a.shape.length → i[swapPos m1 m2 k]? = d[k]?) ∧
+      v.InBounds ∧ (v.apply a fill).flat.Perm a.flat := by
+  have hm1 := normalizeAxis_lt _ _ _ h1
+  have hm2 := normalizeAxis_lt _ _ _ h2
+  have hperm := swap_order_perm a.shape.length m1 m2 hm1 hm2
+  have hn := normalizeAxes_ofNat a.shape.length ((List.range a.shape.length).map (swapPos m1 m2)) (fun x hx => by
+    simp only [List.mem_map, List.mem_range] at hx
+    obtain ⟨k, hk, rfl⟩ := hx
+    exact swapPos_lt m1 m2 k _ hm1 hm2 hk)
+  obtain ⟨v, hv, hs, hl, hsh, hmap⟩ := transpose_eq_spec a.shape _ _ hn hperm
+  have hpk : ∀ k : Nat, k < a.shape.length →
+      ((List.range a.shape.length).map (swapPos m1 m2))[k]? = some (swapPos m1 m2 k) := by
+    intro k hk; simp [List.getElem?_range hk]
+  have hview : swapaxesView a.shape a1 a2 = some v := by
+    simp only [swapaxesView, swapaxesToTranspose, h1, h2, Option.bind_some, swap_order_eq _ _ _ hm1 hm2]
+    exact hv
+  refine ⟨v, hview, hs, hl, fun k hk => hsh k _ (hpk k hk), ?_, transpose_inBounds a.shape _ _ v hn hperm hv, ?_⟩
+  · intro d hd
+    obtain ⟨i, hi1, hi2, hi3⟩ := hmap d hd
+    exact ⟨i, hi1, hi2, fun k hk => hi3 k _ (hpk k hk)⟩
+  · obtain ⟨v', hv', hp⟩ := transpose_is_permutation a fill _ _ hn hperm ha
+    rw [hv] at hv'; cases hv'; exact hp
+
+example : normalizeAxis ([2,3,4] : Shape).length (-1) = some 2 ∧ normalizeAxis ([2,3,4] : Shape).length 0 = some 0 := by decide
+example : (swapaxesView [2,3,4] 0 (-1)).map (fun v => (v.dst, v.map [3,1,0])) = some ([4,3,2], some [0,1,3]) := by decide
+
 end NmVerif.Props.C03
